@@ -297,7 +297,7 @@ def match_finding(prop, clause, ev, scn, findings):
                 env = {"__builtins__": {"len": len, "any": any, "all": all, "set": set, "min": min, "max": max,
                                         "str": str, "int": int, "sorted": sorted, "isinstance": isinstance,
                                         "list": list, "dict": dict, "sum": sum, "abs": abs, "range": range,
-                                        "enumerate": enumerate, "zip": zip, "bool": bool, "tuple": tuple},
+                                        "enumerate": enumerate, "zip": zip, "bool": bool, "tuple": tuple, "map": map, "filter": filter, "repr": repr},
                        # in the globals, so that comprehensions / lambdas inside the expression see them
                        "e": ev, "scn": scn, "ops": scn.get("ops", []), "par": scn.get("par", {})}
                 if not eval(sig["where"], env):
